@@ -677,6 +677,13 @@ func (ts *Service) handleListTasks(w http.ResponseWriter, r *http.Request) {
 
 var validTaskID = regexp.MustCompile(`^[-\._\p{L}0-9]+$`)
 
+// isValidID reports whether id can be used as the ID of a task or template.
+// "." and ".." consist of valid characters but are path elements: the index of the store and
+// the HTTP routes both clean them away, such an object can never be listed or addressed.
+func isValidID(re *regexp.Regexp, id string) bool {
+	return re.MatchString(id) && id != "." && id != ".."
+}
+
 func (ts *Service) handleCreateTask(w http.ResponseWriter, r *http.Request) {
 	task := client.CreateTaskOptions{}
 	dec := json.NewDecoder(r.Body)
@@ -688,7 +695,7 @@ func (ts *Service) handleCreateTask(w http.ResponseWriter, r *http.Request) {
 	if task.ID == "" {
 		task.ID = uuid.New().String()
 	}
-	if !validTaskID.MatchString(task.ID) {
+	if !isValidID(validTaskID, task.ID) {
 		httpd.HttpError(w, fmt.Sprintf("task ID must contain only letters, numbers, '-', '.' and '_'. %q", task.ID), true, http.StatusBadRequest)
 		return
 	}
@@ -880,6 +887,10 @@ func (ts *Service) handleUpdateTask(w http.ResponseWriter, r *http.Request) {
 
 	// Set ID if changing
 	if task.ID != "" {
+		if !isValidID(validTaskID, task.ID) {
+			httpd.HttpError(w, fmt.Sprintf("task ID must contain only letters, numbers, '-', '.' and '_'. %q", task.ID), true, http.StatusBadRequest)
+			return
+		}
 		updated.ID = task.ID
 	}
 
@@ -1679,7 +1690,7 @@ func (ts *Service) handleCreateTemplate(w http.ResponseWriter, r *http.Request) 
 	if template.ID == "" {
 		template.ID = uuid.New().String()
 	}
-	if !validTemplateID.MatchString(template.ID) {
+	if !isValidID(validTemplateID, template.ID) {
 		httpd.HttpError(w, fmt.Sprintf("template ID must contain only letters, numbers, '-', '.' and '_'. %q", template.ID), true, http.StatusBadRequest)
 		return
 	}
@@ -1771,6 +1782,10 @@ func (ts *Service) handleUpdateTemplate(w http.ResponseWriter, r *http.Request) 
 
 	// Set ID
 	if template.ID != "" {
+		if !isValidID(validTemplateID, template.ID) {
+			httpd.HttpError(w, fmt.Sprintf("template ID must contain only letters, numbers, '-', '.' and '_'. %q", template.ID), true, http.StatusBadRequest)
+			return
+		}
 		updated.ID = template.ID
 	}
 
